@@ -91,6 +91,10 @@ struct Picky
   Picky(long v_ = 0) : v(v_) {}
   Picky &operator=(const Poison &) { throw std::invalid_argument("rejected value"); }
   bool operator==(const Picky &o) const { return v == o.v; }
+  // (comparable with the rejected source too: a tree that compares before it assigns must still compile)
+  bool operator==(const Poison &) const { return false; }
+  bool operator!=(const Picky &o) const { return v != o.v; }
+  bool operator!=(const Poison &) const { return true; }
 };
 template <>
 Picky mk<Picky>(long k) { return Picky(k); }
